@@ -47,6 +47,59 @@ fn main() {
             }
             let mut errors = 0;
             let pname = arg(&args, "--profile").unwrap_or("default").to_string();
+            if let Some(b) = pname.strip_prefix("xm").or(pname.strip_prefix("xn")) {
+                // xm: with resize / close in the menu; xn: without (and without the shrink epilogue)
+                let resizes = pname.starts_with("xm");
+                // systematic small scopes of the managed pool (see gen::exhaust)
+                let budget: usize = b.parse().unwrap_or(1);
+                let chunk = (seed % 1000) as usize;
+                let mut k = 0u64;
+                for (si, sc) in gen::scenarios(resizes).iter().enumerate() {
+                    if si % 16 != chunk % 16 {
+                        continue;
+                    }
+                    for variant in 0..3 {
+                        let _ = gen::exhaust(sc, variant, budget, n as usize, resizes, |t, hdr| {
+                            writeln!(out, "trace {} seed={} profile={} {}", k, seed, pname, hdr).unwrap();
+                            for l in &t.lines {
+                                writeln!(out, "{}", l).unwrap();
+                            }
+                            writeln!(out, "end").unwrap();
+                            if t.error.is_some() {
+                                errors += 1;
+                            }
+                            k += 1;
+                        });
+                    }
+                }
+                out.flush().unwrap();
+                std::process::exit(if errors > 0 { 3 } else { 0 });
+            }
+            if let Some(b) = pname.strip_prefix("xu") {
+                // systematic small scopes of the unmanaged pool: every schedule with at most
+                // `b` preemptions of every scenario; the scenarios are dealt out over 16 chunks
+                let budget: usize = b.parse().unwrap_or(1);
+                let chunk = (seed % 1000) as usize;
+                let mut k = 0u64;
+                for (si, sc) in unmanaged::scenarios().iter().enumerate() {
+                    if si % 16 != chunk % 16 {
+                        continue;
+                    }
+                    let _ = unmanaged::exhaust(sc, budget, n as usize, |t, hdr| {
+                        writeln!(out, "trace {} seed={} profile={} {}", k, seed, pname, hdr).unwrap();
+                        for l in &t.lines {
+                            writeln!(out, "{}", l).unwrap();
+                        }
+                        writeln!(out, "end").unwrap();
+                        if t.error.is_some() {
+                            errors += 1;
+                        }
+                        k += 1;
+                    });
+                }
+                out.flush().unwrap();
+                std::process::exit(if errors > 0 { 3 } else { 0 });
+            }
             if pname.starts_with('u') {
                 for k in 0..n {
                     let tseed = seed.wrapping_mul(1_000_003).wrapping_add(k);
